@@ -6,6 +6,11 @@ heap object so that any over-read is a bounds violation) and compared by CBMC wi
 file from the *documentation* (doc/Rule-Reference.md, RFC 5234 appendix B) and from the Unicode standard (harness/c10_spec.h),
 never from the implementation: byte sets as Python sets rendered to plain interval tests, UTF-8 by Table 3-7, UTF-16 by
 surrogate arithmetic, UTF-32 as scalar values, uintN by shift/or in both byte orders, masks by `&`.
+
+One unit and one query per small group of rules of equal unit size.  Cost notes (measured): a heap buffer of *symbolic* size makes
+the formula grow quadratically with the number of rule calls in a query (array theory); c10_setup() therefore case-splits the
+length into one constant-size object per length (linear growth, 10 rules x 4 modes in 5..15 s) and the specification reads a
+fixed-size shadow copy of the drawn bytes instead of the heap object.
 """
 import os
 import re
